@@ -358,3 +358,32 @@ def bern_requests(rng, n):
         p = bern_p(rng, words)
         reqs.append("bern p=%d via=%s n=%d words=%s" % (p, rng.choice(["chance", "sample"]), cnt, ",".join(map(str, words))))
     return reqs
+
+
+def single_requests(rng, n):
+    """Random::single with exact, inexact and missing size hints; the reservoir path draws a Float01 (two words) per item"""
+    from .gen_int import clz_word
+    reqs = []
+    for _ in range(n):
+        ln = rng.choice([0, 0, 1, 2, 3, rng.below(12), rng.below(41)])
+        its = items(rng, ln)
+        hint = rng.choice(["slice", "vec", "exact", "lower", "upper", "filter", "none", "none"])
+        exact = hint in ("slice", "vec", "exact") or (hint in ("upper", "filter") and ln == 0)
+        if exact:
+            words, _ = index_words(rng, [ln])
+        else:
+            words = []
+            for i in range(ln):
+                # Float01 vs 1/(i+1): make the comparison go both ways, incl. the exact threshold
+                k = rng.below(5)
+                if k == 0:
+                    words += [C.M64, C.M64]                      # just below 1: only item 0 takes it
+                elif k == 1:
+                    words += [0, 0]                              # tiny: always taken
+                else:
+                    words += [clz_word(rng, rng.below(8)), rng.edge64()]
+        words += [rng.u64() for _ in range(rng.below(2))]
+        if rng.chance(1, 15):
+            words = words[: rng.below(len(words) + 1)]
+        reqs.append("single hint=%s items=%s words=%s" % (hint, ",".join(map(str, its)), ",".join(map(str, words))))
+    return reqs
